@@ -391,6 +391,23 @@ Check C07_fail_reregister_clears : forall ttl quorum st a h i evs,
   forall x, In (a, x) (CtrlFail.fs_done st2) -> In (a, x) (CtrlFail.fs_done st).
 Print Assumptions C07_fail_reregister_clears.
 
+(* the compiled detector (PingFailureDetector::check_impl + check_and_report) under any fault script: coordinator c reports proxy a
+   only after three consecutive PING attempts that each failed (the proxy was down, or the call or its answer was lost) *)
+Theorem C07_fail_report_needs_three_failed_probes : forall sc c a n st e n' cr c' a',
+  CtrlFail.detect_proxy sc c a n st = (e, n', cr) ->
+  In (CtrlFail.EReport c' a') e ->
+  c' = c /\ a' = a /\
+  forall j, (j < 3)%nat ->
+    CtrlFail.answered (CtrlFail.fc_fault sc (n + j)) && negb (CtrlFail.nmem a (CtrlFail.fs_down st)) = false.
+Proof. exact CtrlProofsFail.report_needs_three_failed_probes. Qed.
+Check C07_fail_report_needs_three_failed_probes : forall sc c a n st e n' cr c' a',
+  CtrlFail.detect_proxy sc c a n st = (e, n', cr) ->
+  In (CtrlFail.EReport c' a') e ->
+  c' = c /\ a' = a /\
+  forall j, (j < 3)%nat ->
+    CtrlFail.answered (CtrlFail.fc_fault sc (n + j)) && negb (CtrlFail.nmem a (CtrlFail.fs_down st)) = false.
+Print Assumptions C07_fail_report_needs_three_failed_probes.
+
 (* ---------- non-vacuity: a concrete broker history and a concrete faulty run ---------- *)
 
 (* the broker serves proxies 1 and 2; the epoch is the time + 1 (every step changes something) *)
